@@ -340,7 +340,7 @@ class StageCopyLink(Target):
         return cl
 
 
-KEYS = ['bin', 'bin/tool', 'data/extra', 'nested/dir', '../outside', 'bin/../../escape', '/abs/path', 'ok/../fine', '..',
+KEYS = ['bin', 'bin/tool', 'bin/../beside', 'conf', 'data/extra', 'nested/dir', '../outside', 'bin/../../escape', '/abs/path', 'ok/../fine', '..',
         # siblings whose name STARTS with the instance directory's name (character-wise prefix tests accept them)
         '../inst-old/bin', 'bin/../../inst.bak', '/work/inst-shared/bin']
 
@@ -363,6 +363,9 @@ class ManifestFS:
         self.created = []         # resolved location of everything that was created
 
     def realpath(self, p):
+        return self.oswalk(p)
+
+    def _realpath_lexical(self, p):
         p = os.path.normpath(p)
         for _ in range(8):
             parts = p.split('/')
@@ -375,9 +378,28 @@ class ManifestFS:
                 return p
         return p
 
+    def oswalk(self, path):
+        """where the operating system ends up for `path`: component by component, following links as they are met and
+        applying `..` to the RESOLVED location (unlike normpath, which cancels `link/..` lexically)"""
+        cur = '/'
+        for part in [x for x in path.split('/') if x not in ('', '.')]:
+            if part == '..':
+                cur = os.path.dirname(cur)
+                continue
+            cur = os.path.join(cur, part)
+            for _ in range(8):
+                if cur in self.links:
+                    cur = self.oswalk(self.links[cur])
+                else:
+                    break
+        return cur
+
     def _parent_resolved(self, dst):
-        dst = os.path.normpath(dst)
-        return os.path.join(self.realpath(os.path.dirname(dst)), os.path.basename(dst))
+        dst = dst.rstrip('/')
+        parent, base = os.path.split(dst)
+        if base == '..':
+            return self.oswalk(dst)
+        return os.path.join(self.oswalk(parent), base)
 
     def _add(self, loc):
         self.created.append(loc)
@@ -440,7 +462,9 @@ class DeployManifest(Target):
                 kj = os.path.normpath(keys[j])
                 if st.manifest[keys[j]].endswith(':link') and os.path.normpath(k).startswith(kj + os.sep):
                     through_link = True
-        hostile = lexical or through_link
+        # `conf` linked to a folder outside: the workflow definition would be written THERE (flowir_package.yaml)
+        conf_linked = any(os.path.normpath(k) == 'conf' and st.manifest[k].endswith(':link') for k in keys)
+        hostile = lexical or through_link or conf_linked
         # two entries that name the same place (or a place inside an entry that was COPIED before) collide: an OSError, reported
         # as a packaging error, is the documented outcome
         norm = [os.path.normpath(k) for k in keys]
